@@ -255,6 +255,22 @@ class CtxWorld(World):
                 req_by_tok[tok] = m
         setters = 0
         served_clients = set()
+        # correlation ids: one per request.  A request without a client-chosen id gets a fresh one from the daemon,
+        # so the id a method observes must never be the id of a different request.
+        corr_owner = {}
+        for tok, rec in ops.items():
+            if rec["corr"] is not None:
+                corr_owner[rec["corr"]] = tok
+        for tok, snaps in obj._snaps.items():
+            rec = ops.get(tok)
+            if rec is None or rec["kind"] == "batch":
+                continue
+            for sn in snaps:
+                c = sn["corr"]
+                owner = corr_owner.setdefault(c, tok)
+                if owner != tok:
+                    ctx.violate("context-mismatch", "foreign-correlation-id", "%s observed correlation id %s which belongs to request %s"
+                                % (tok, c, owner))
         # ---- (1) snapshots equal the invoking request
         for tok, rec in ops.items():
             kind = rec["kind"]
